@@ -56,7 +56,8 @@ def judge(run, rec, pid="C01"):
     mv, mr = obs.get("model_vm", []), obs.get("model_ref", [])
     nt = nontrivial_src(src)
     dom = rec.get("domain", "")
-    run.count("theorem-domain:" + ("ScalarCore" if "scalarcore=yes" in dom else "StorageCore" if "storagecore=yes" in dom else "outside (correspondence only)"))
+    run.count("theorem-domain:" + ("ScalarCore" if "scalarcore=yes" in dom else "StorageCore" if "storagecore=yes" in dom else
+                                   "VectorCore" if "vectorcore=yes" in dom else "outside (correspondence only)"))
     if "storagecore=yes" in dom: run.count("theorem-domain:optimised compile (NoShadow %s)" % ("holds" if "noshadow=yes" in dom else "fails"))
     for j, r in enumerate(ref):
         inp = dict(base_inp, input_index=j, input=rec["inputs"][j])
